@@ -324,3 +324,20 @@ func VerifC20_ThreeSiblings(cs int) {
 	VsAssert("close-pair-among-three-is-reported-once", vCount(keys, "SiblingsBornTooClose") == 1)
 	VsAssert("close-pair-among-three-is-named", vHas(keys, "SiblingsBornTooClose||F1|siblings=I3,I4"))
 }
+
+// VerifC20_UnknownAge: a person whose birth (or, without a birth, baptism) date cannot be interpreted
+// has no known age: no individual-too-old warning whatever the death or burial date says, and the
+// unparsable date is reported once. cs%4: unparsable BIRT / impossible day / phrase / unparsable BAPM
+// without BIRT; cs/4%2: death or burial.
+func VerifC20_UnknownAge(cs int) {
+	end := vNewExactDay("end", 1850, 1950, 2000)
+	first := []string{vEvent("BIRT", "12 Foo 1901"), vEvent("BIRT", "31 Feb 1801"), vEvent("BIRT", "(about the time of the flood)"), vEvent("BAPM", "sometime")}[cs%4]
+	last := vEvent([]string{"DEAT", "BURI"}[cs/4%2], end.text)
+	doc, err := NewDocumentFromString(vIndi("I1", "Ann /Lee/", "F", first, last))
+	VsAssume(err == nil)
+	keys := vWarningKeys(doc)
+	VsObserve(strings.Join(keys, ";"))
+	VsReach("unknown-age-checked")
+	VsAssert("no-too-old-warning-without-a-usable-birth-date", vCount(keys, "IndividualTooOld") == 0)
+	VsAssert("unusable-birth-date-is-reported-once", vCount(keys, "UnparsableDate") == 1)
+}
